@@ -115,10 +115,15 @@ class K1:
             if not (len(s.body) >= 1 and "FailedPredicateException" in u(s.body[-1])):
                 raise Inconclusive("K1: precpred guard without FailedPredicateException")
             return ("sym", ("P", int(m.group(1))))
-        # set match
-        if t.startswith("not(") or t.startswith("not ("):
-            if s.orelse and "recoverInline" in u(s.body[0]) and "consume" in u(ast.Module(body=s.orelse, type_ignores=[])):
-                return self.sym_tokens(self.tokens_of(s.test))
+        # set match: `if <test>: recoverInline(...) else: reportMatch; consume` - the tokens matched are those for which the test is false
+        # (decided by the truth table of the test over all token types, whatever way the test is spelled or parenthesised)
+        if s.orelse and s.body and "recoverInline" in u(s.body[0]) and "consume" in u(ast.Module(body=s.orelse, type_ignores=[])):
+            consts = dict(self.tok)
+            consts["EOF"] = -1
+            matched = [n for n, v in sorted(self.tok.items(), key=lambda kv: kv[1]) if not CondEval(consts, v).ev(s.test)]
+            if not matched:
+                raise Inconclusive("K1: set match `%s` matches no token" % t[:60])
+            return self.sym_tokens(matched)
         # LL1 switch
         if t.startswith("token in ["):
             alts = []
